@@ -717,3 +717,48 @@ func VH_C07_tosvg_Q() {
 	vKnown("D64", tx == 0 && ty == 0 && h != 0)
 	vAssert("C07.tosvg.same_transformation", good)
 }
+
+// H3b arcs: the conic handed to the eigen-decomposition.  Transform describes the image of the
+// ellipse x = R(phi)(rx cos t, ry sin t) under the linear part L of m by the matrix Q with
+// x'^T Q x' = 1 and reads the new radii and rotation off Q's eigen-decomposition (trigonometric
+// and square roots: outside the claim, see the companion VH_C07_companion_arc_points).  Decided
+// here: the Q that reaches Eigen is the conic of the image ellipse - three image points
+// L R(phi)(rx c, ry s) satisfy it to 1e-6 - for a symbolic major radius (1 <= rx <= 1000, ry = 1),
+// two concrete non-zero rotations and every matrix of the table (rotation, anisotropic scale,
+// shear, reflection, near-singular).  Eigen is a recorder ("!": also in the interpreter's replay).
+var vhC07Conic Matrix
+var vhC07ConicCalls int
+
+func vhC07EigenRec(m Matrix) (float64, float64, Point, Point) {
+	vhC07Conic = m
+	vhC07ConicCalls++
+	return 1.0, 1.0, Point{1.0, 0.0}, Point{0.0, 1.0}
+}
+
+func VH_C07_transform_arc_conic_Q() {
+	vStub("!(github.com/tdewolff/canvas.Matrix).Eigen", vhC07EigenRec)
+	rx := vhReal()
+	vAssume(1 <= rx && rx <= 1000)
+	ry := 1.0
+	phi := []float64{0.5, 2.0}[vChoose(0, 1)]
+	m := vhC07Mat(vChoose(0, vhC07NMat-1))
+	p := &Path{}
+	p.d = append(p.d, MoveToCmd, 1, 2, MoveToCmd, ArcToCmd, rx, ry, phi, float64(vChoose(0, 3)), 4, -1, ArcToCmd)
+	vhC07ConicCalls = 0
+	_ = p.Transform(m)
+	vAssertI("C07.arc.conic.eigen_consulted_once", vhC07ConicCalls == 1)
+	if vhC07ConicCalls != 1 {
+		return
+	}
+	Q := vhC07Conic
+	cphi, sphi := math.Cos(phi), math.Sin(phi)
+	ok := true
+	for _, u := range [][2]float64{{1, 0}, {0, 1}, {0.6, 0.8}, {-0.8, 0.6}} {
+		lx, ly := rx*u[0], ry*u[1]
+		X, Y := cphi*lx-sphi*ly, sphi*lx+cphi*ly
+		x, y := m[0][0]*X+m[0][1]*Y, m[1][0]*X+m[1][1]*Y
+		f := x*(Q[0][0]*x+Q[0][1]*y) + y*(Q[1][0]*x+Q[1][1]*y)
+		ok = ok && f > 1-1e-6 && f < 1+1e-6
+	}
+	vAssertI("C07.arc.conic.image_points_satisfy_the_conic", ok)
+}
